@@ -184,6 +184,7 @@ pub fn cache_pressure(args: &[String]) {
   let steps = arg_usize(args, "--steps", 400000);
   let capfile = arg_value(args, "--capture").expect("--capture");
   silence_panics();
+  unsafe { crate::util::CASE_TIMEOUT_S = 3000; }
   let res = run_isolated_max(1, 1, |_, out| {
     let mut cap = Capture::start(&capfile);
     // MBC3 with 128 banks; bank b (1..banks) holds a chain of JPs from 0x4000 upwards, the last one
